@@ -1428,6 +1428,27 @@ Definition G4e (g : gst) := forall q tg d, toolong tg d = false ->
     (forall l, In l L -> filt (gp g q) FEcho l tg = true) /\
     (forall l, filt (gp g q) FEcho l tg = true -> byz l = false -> sent_echo g l q tg d -> In l L).
 
+Definition RQa (g : gst) := forall q dst x, In (q, dst, x) (gsent g) -> m_act x = 4 -> dbar (gp g q) (mtag x) = Some (m_pay x).
+Definition RQb (g : gst) := forall q dst x, In (q, dst, x) (gsent g) -> m_act x = 4 -> forall i, 0 <= i <= 2 * t -> In (q, i, x) (gsent g).
+Definition K9 (g : gst) := forall l q tg, filt (gp g l) FRequest q tg = true ->
+  byz q = true \/ exists m, In (q, l, m) (gsent g) /\ mtag m = tg /\ m_act m = 4.
+(* when a request was sent, an echo quorum for the requested digest existed; its honest members answer when asked *)
+Definition RQc (g : gst) := forall q dst x, In (q, dst, x) (gsent g) -> m_act x = 4 ->
+  exists W, NoDup W /\ n - t <= Z.of_nat (length W) /\
+    forall l, In l W -> 0 <= l < n /\
+      (byz l = true \/ (echoed g l (mtag x) (m_pay x) /\
+                       (filt (gp g l) FRequest q (mtag x) = true -> exists a, In (l, q, a) (gsent g) /\ m_act a = 5 /\ mtag a = mtag x))).
+Definition K10 (g : gst) := forall l q a, In (l, q, a) (gsent g) -> m_act a = 5 ->
+  (byz q = true \/ exists m, In (q, l, m) (gsent g) /\ m_act m = 4 /\ mtag m = mtag a) /\
+  (echoed g l (mtag a) (H (m_pay a)) \/ Sup g (mtag a) (H (m_pay a))).
+(* a delivery attempt was made for tg at q: delivered, waiting in the deliver buffer, or dropped as obsolete *)
+Definition TD (g : gst) (q : Z) (tg : tagT) : Prop :=
+  (exists v, In (q, tg, v) (glog g)) \/ In tg (dbuf (gp g q)) \/ obsolete (gp g q) tg = true.
+Definition K11 (g : gst) := forall q l tg, filt (gp g q) FAnswer l tg = true -> byz l = false ->
+  TD g q tg \/ exists a db, In (l, q, a) (gsent g) /\ m_act a = 5 /\ mtag a = tg /\ dbar (gp g q) tg = Some db /\ db <> H (m_pay a).
+Definition K12 (g : gst) := forall q tg, dbar (gp g q) tg <> None ->
+  TD g q tg \/ exists x, m_act x = 4 /\ mtag x = tg /\ forall i, 0 <= i <= 2 * t -> In (q, i, x) (gsent g).
+
 Section OneStep4b.
 Variables (g g' : gst) (p : Z) (st' : pst) (out : list (Z * msg)) (r : dres) (offer : option (Z * msg)).
 Hypothesis Hp : hon p.
@@ -1548,6 +1569,144 @@ Proof.
     intros l F Nb (m & Im & Tm & Am & Pm). apply AC; auto.
     destruct (I0 _ _ _ F) as [Y|(m0 & I0m & T0m & A0m)]; [congruence|].
     exists m0. repeat split; auto. rewrite <- Pm. eapply echo_unique'; eauto. congruence.
+Qed.
+
+Lemma dbar_stable : forall tg d, dbar (gp g p) tg = Some d -> dbar st' tg = Some d.
+Proof. intros tg d D. destruct Q as (_ & _ & _ & Db & _). destruct (Db tg) as [E|[E _]]; congruence. Qed.
+
+Lemma RQa_step : RQa g -> RQa g'.
+Proof.
+  intros IH q dst x I A. apply snewb in I. destruct I as [I|[-> I]].
+  - destruct (scasesb q) as [[-> E]|[N E]]; rewrite E; [apply dbar_stable|]; eapply IH; eauto.
+  - rewrite gp_p. destruct Q4 as (_ & _ & _ & _ & _ & _ & Qc & _). destruct (Qc _ _ I A) as (D & _). exact D.
+Qed.
+
+Lemma RQb_step : RQb g -> RQb g'.
+Proof.
+  intros IH q dst x I A i Ri. apply snewb in I. destruct I as [I|[-> I]].
+  - apply smonob. eapply IH; eauto.
+  - destruct Q4 as (_ & _ & _ & _ & _ & _ & Qc & _). destruct (Qc _ _ I A) as (_ & _ & _ & Al). apply in_taggedb. auto.
+Qed.
+
+Lemma K9_step : K9 g -> K9 g'.
+Proof.
+  intros IH l q tg F. destruct (scasesb l) as [[-> E]|[N E]]; rewrite E in *.
+  - destruct (filt (gp g p) FRequest q tg) eqn:F0.
+    + destruct (IH _ _ _ F0) as [Y|(m & I & X)]; auto. right. exists m. auto.
+    + destruct Q4 as (_ & _ & _ & Rc & _). destruct (Rc _ _ F0 F) as (m & Eo & Tm & Am & _).
+      destruct (can_recv_spec g p q m (CR q m Eo)) as (_ & [Y|I]); auto. right. exists m. auto.
+  - destruct (IH _ _ _ F) as [Y|(m & I & X)]; auto. right. exists m. auto.
+Qed.
+
+(* no request of p for tg is in the network while p has not fixed the digest; hence nobody has processed one *)
+Lemma no_request_yet : RQa g -> K9 g -> forall tg, dbar (gp g p) tg = None -> forall l, filt (gp g' l) FRequest p tg = true -> False.
+Proof.
+  intros Ra A9 tg D0 l F.
+  assert (OLD : forall l0, filt (gp g l0) FRequest p tg = true -> False).
+  { intros l0 F0. destruct (A9 _ _ _ F0) as [Y|(m & I & Tm & Am)]; [rewrite byz_p in Y; discriminate|].
+    pose proof (Ra _ _ _ I Am) as X. rewrite Tm in X. congruence. }
+  destruct (scasesb l) as [[-> E]|[N E]]; rewrite E in *; [|eapply OLD; eauto].
+  destruct (filt (gp g p) FRequest p tg) eqn:F0; [eapply OLD; eauto|].
+  destruct Q4 as (_ & _ & _ & Rc & _). destruct (Rc _ _ F0 F) as (m & Eo & Tm & Am & _).
+  destruct (can_recv_spec g p p m (CR p m Eo)) as (_ & [Y|I]); [rewrite byz_p in Y; discriminate|].
+  pose proof (Ra _ _ _ I Am) as X. rewrite <- Tm in X. congruence.
+Qed.
+
+Lemma RQc_step : RQa g -> K9 g -> RQc g -> RQc g'.
+Proof.
+  intros Ra A9 IH q dst x I A. apply snewb in I. destruct I as [I|[-> I]].
+  - destruct (IH _ _ _ I A) as (W & ND & Len & AW). exists W. split; [exact ND|]. split; [exact Len|].
+    intros l J. destruct (AW l J) as (R & [Y|(Ec & An)]); split; auto. right. split; [apply echoed_monob; exact Ec|].
+    intros F. destruct (scasesb l) as [[-> E]|[N E]]; rewrite E in *.
+    + destruct (filt (gp g p) FRequest q (mtag x)) eqn:F0.
+      * destruct (An eq_refl) as (a & Ia & Ea). exists a. split; auto.
+      * pose proof Q4 as Q40. destruct Q40 as (_ & _ & _ & Rc & _). destruct (Rc _ _ F0 F) as (m & Eo & Tm & Am & C).
+        destruct C as [C|(v & Mv & Iv)].
+        -- exfalso. pose proof I4g as (_ & _ & _ & _ & A3 & _). destruct Ec as (d0 & e & Ie & Te & Ae & _).
+           pose proof (A3 _ _ _ Ie Ae) as X. rewrite Te in X. congruence.
+        -- exists (Msg (m_id m) (m_j m) (m_s m) 5 v). split; [apply in_taggedb; exact Iv|]. split; [reflexivity|]. rewrite Tm. reflexivity.
+    + destruct (An F) as (a & Ia & Ea). exists a. split; auto.
+  - pose proof Q4 as Q40. destruct Q40 as (_ & _ & _ & _ & _ & _ & Qc & _). destruct (Qc _ _ I A) as (D1 & D0 & Rd & _).
+    assert (DN : dbar (gp g p) (mtag x) = None).
+    { destruct D0 as [D0|D0]; auto. exfalso. pose proof Ig as (_ & _ & _ & _ & _ & _ & A7 & _). apply A7 in D0. lia. }
+    assert (S : Sup g' (mtag x) (m_pay x)). { apply (dbar_Sup g' Ig' p). rewrite gp_p. exact D1. }
+    destruct S as (L & ND & Len & AL). exists L. split; [exact ND|]. split; [exact Len|].
+    intros l J. destruct (AL l J) as (R & [Y|Ec]); split; auto. right. split; auto.
+    intros F. exfalso. eapply no_request_yet; eauto.
+Qed.
+
+Lemma K10_step : K10 g -> K10 g'.
+Proof.
+  intros IH l q a I A. apply snewb in I. destruct I as [I|[-> I]].
+  - destruct (IH _ _ _ I A) as (R & S). split.
+    + destruct R as [Y|(m & Im & E)]; auto. right. exists m. auto.
+    + destruct S; [left; apply echoed_monob|right; apply (Sup_mono g g' p out Esent)]; auto.
+  - destruct Q4 as (_ & _ & _ & _ & Ac & _). destruct (Ac _ _ I A) as (m & Eo & Am & Tm & Mv). split.
+    + destruct (can_recv_spec g p q m (CR q m Eo)) as (_ & [Y|Im]); auto. right. exists m. auto.
+    + destruct I2g as (Th & _). destruct (Th _ _ _ Mv); [left; apply echoed_monob|right; apply (Sup_mono g g' p out Esent)]; auto.
+Qed.
+
+Lemma obsolete_stable : forall tg, obsolete (gp g p) tg = true -> obsolete st' tg = true.
+Proof.
+  intros [[id who] s] O. unfold obsolete in *. rewrite Ecur, Efifo. b2p. rewrite H0, H2, Z.eqb_refl. cbn.
+  apply Z.ltb_lt. pose proof I4g as (NSg & _).
+  destruct (dls_step g g' p st' out r offer Q Q2 Q4 DR Elog NSg) as [[_ D]|(w & s0 & v0 & _ & -> & D)]; rewrite D; [lia|].
+  unfold updZ. destruct (who =? w) eqn:X; b2p; subst; lia.
+Qed.
+
+Lemma TD_stable : forall q tg, TD g q tg -> TD g' q tg.
+Proof.
+  intros q tg [(v & I)|[I|O]].
+  - left. exists v. rewrite Elog. apply in_or_app. auto.
+  - destruct (scasesb q) as [[-> E]|[N E]]; [|right; left; rewrite E; exact I].
+    destruct Q4 as (_ & _ & _ & _ & _ & _ & _ & _ & _ & Bc & _). destruct (Bc tg I) as [J|[(who & v & Er)|O]].
+    + right. left. rewrite E. exact J.
+    + left. exists v. rewrite Elog, Er. apply in_or_app. right. cbn. auto.
+    + right. right. rewrite E. apply obsolete_stable. exact O.
+  - right. right. destruct (scasesb q) as [[-> E]|[N E]]; rewrite E; auto. apply obsolete_stable. exact O.
+Qed.
+
+Lemma tried_TD : forall tg, tried st' r tg -> TD g' p tg.
+Proof.
+  intros tg [(who & v & Er)|I].
+  - left. exists v. rewrite Elog, Er. apply in_or_app. right. cbn. auto.
+  - right. left. rewrite gp_p. exact I.
+Qed.
+
+Lemma K11_step : RQa g -> K10 g -> K11 g -> K11 g'.
+Proof.
+  intros Ra A10 IH q l tg F Nb.
+  assert (OLD : forall q0, filt (gp g q0) FAnswer l tg = true ->
+                TD g' q0 tg \/ exists a db, In (l, q0, a) (gsent g') /\ m_act a = 5 /\ mtag a = tg /\ dbar (gp g q0) tg = Some db /\ db <> H (m_pay a)).
+  { intros q0 F0. destruct (IH _ _ _ F0 Nb) as [T|(a & db & Ia & Aa & Ta & D & NE)]; [left; apply TD_stable; exact T|].
+    right. exists a, db. repeat split; auto. }
+  destruct (scasesb q) as [[-> E]|[N E]]; rewrite E in *.
+  - destruct (filt (gp g p) FAnswer l tg) eqn:F0.
+    + destruct (OLD p F0) as [T|(a & db & Ia & Aa & Ta & D & NE)]; [left; exact T|].
+      right. exists a, db. repeat split; auto. apply dbar_stable. exact D.
+    + destruct Q4 as (_ & _ & _ & _ & _ & Fc & _). destruct (Fc _ _ F0 F) as (m & Eo & Tm & Am & C).
+      destruct (can_recv_spec g p l m (CR l m Eo)) as (_ & [Y|Im]); [congruence|].
+      destruct C as [C|[(db & D & NE)|T]].
+      * exfalso. destruct (A10 _ _ _ Im Am) as ([Y|(m' & Im' & Am' & Tm')] & _); [rewrite byz_p in Y; discriminate|].
+        pose proof (Ra _ _ _ Im' Am') as X. rewrite Tm', <- Tm in X. congruence.
+      * right. exists m, db. repeat split; auto. apply dbar_stable. exact D.
+      * left. apply tried_TD. exact T.
+  - destruct (OLD q F) as [T|(a & db & Ia & Aa & Ta & D & NE)]; [left; exact T|]. right. exists a, db. repeat split; auto.
+Qed.
+
+Lemma K12_step : K12 g -> K12 g'.
+Proof.
+  intros IH q tg D.
+  assert (OLD : forall q0, dbar (gp g q0) tg <> None ->
+                TD g' q0 tg \/ exists x, m_act x = 4 /\ mtag x = tg /\ forall i, 0 <= i <= 2 * t -> In (q0, i, x) (gsent g')).
+  { intros q0 D0. destruct (IH _ _ D0) as [T|(x & Ax & Tx & Al)]; [left; apply TD_stable; exact T|].
+    right. exists x. repeat split; auto. }
+  destruct (scasesb q) as [[-> E]|[N E]]; rewrite E in *; [|apply OLD; exact D].
+  destruct (dbar (gp g p) tg) as [d0|] eqn:D0; [apply OLD; congruence|].
+  destruct Q4 as (_ & _ & _ & _ & _ & _ & _ & Dc & _). destruct (Dc tg D0 D) as [(x & Ax & Tx & Al)|[T|(Er & DZ)]].
+  - right. exists x. repeat split; auto.
+  - left. apply tried_TD. exact T.
+  - exfalso. apply (dbar_nonzero g' Ig' p tg 0); [rewrite gp_p; exact DZ|reflexivity].
 Qed.
 
 End OneStep4b.
